@@ -223,13 +223,10 @@ func enumerate(seed uint64) []enumEntry {
 	return out
 }
 
-// payloadCount: number of payload cases for a tier (quick: 3 payloads per leaf path, rotating with the seed)
+// payloadCount: number of payload cases (every leaf path x every payload, in both tiers)
 func payloadCount(seed uint64, tier string) int {
-	n := len(enumerate(seed))
-	if tier == "thorough" {
-		return n * len(payloads)
-	}
-	return n * 3
+	// the full product is small (a few thousand cases, most rejected by the validator before rendering)
+	return len(enumerate(seed)) * len(payloads)
 }
 
 func runPayload(seed uint64, id int, k int) (c Case) {
